@@ -490,7 +490,7 @@ class World:
         rec = {"mid": mid, "who": who, "inc": inc, "peer": peer, "conn": self.conn_name(conn) if conn is not None else None,
                "len": len(payload), "sig": sig(payload), "retry": retry, "api": api, "t": k.now,
                "status": conn.status.name() if conn is not None else None, "cb": bool(op.get("cb")),
-               "ok": None, "echo": bool(op.get("echo")), "small": bytes(payload[:24]),
+               "ok": None, "echo": bool(op.get("echo")), "on_connect": bool(op.get("on_connect")), "small": bytes(payload[:24]),
                "q0": len(conn.outgoing_messages) if conn is not None else 0,
                "msgseq0": int(conn.seq_message) if conn is not None else 0,
                "fragseq0": int(conn.seq_fragment) if conn is not None else 0}
